@@ -25,7 +25,7 @@ RULE = ("seeded random frames (>=1 row, >=2 columns; bool/int/float/str/date/dat
 ASSUMPTIONS = [
     "CSV representability: each string column holds a value that cannot be parsed as number/bool/date/null, >= 2 columns, no bare carriage return, datetimes compared as instants (incl. years outside the nanosecond range 1678-2261); without header only values are compared",
     "JSON representability: bool/int/float/string columns (+None); dates are read back with the documented dtypes= map",
-    "text must be encodable in the chosen encoding; BOM encodings (utf-16, utf-8-sig) are combined with plain paths only",
+    "text must be encodable in the chosen encoding; BOM encodings (utf-16, utf-8-sig) are combined with plain and .gz paths only (CPython's text layer over the non-seekable bz2 / lzma write streams emits no BOM, so 'utf-16' cannot read the file back: an interpreter quirk, not the library's)",
     "compression magic is asserted for writers documented to compress by suffix (csv, json, pickle); for npz and parquet only the round trip is asserted",
     "dtype equality for Parquet is asserted for bool/int/float/string/date/datetime columns",
 ]
@@ -38,6 +38,8 @@ IO_STR = ["abc", "a,b", 'say "hi"', "line1\nline2", "semi;colon", "tab\there", "
           "back\\slash", "x", "née", "Zoë", "\U0001F600 smile", "q" * 60,
           # characters that str.splitlines() treats as line boundaries but file iteration / CSV parsers do not
           "ls\u2028sep", "ps\u2029sep", "nel\x85x", "vt\x0bx", "ff\x0cx", "fs\x1cx",
+          # carriage returns inside values (a CSV reader must not take them for line ends; text layers must not translate them)
+          "cr\rx", "crlf\r\nx",
           # ordinary strings that some parsers read as null markers
           "NA", "N/A", "null", "NULL", "nan", "NaN", "#N/A", "None", "n/a"]
 LATIN = ["abc", "a,b", 'say "hi"', "ünï", "née", "Zoë", "semi;colon", "x y", "line1\nline2", "pipe|d", "NA", "null", "nan", "N/A"]
@@ -94,7 +96,7 @@ def generate(rng, tier):
     n = rng.choice([1, 2, 3, 5, 9])
     enc = "utf-8"
     if fmt in ("csv", "json", "lod-json", "lod-csv"):
-        encs = ["utf-8", "utf-8", "latin-1", "cp1252"] + (["utf-16", "utf-8-sig"] if suffix == "" else ["utf-16-le"])
+        encs = ["utf-8", "utf-8", "latin-1", "cp1252"] + (["utf-16", "utf-8-sig"] if suffix in ("", ".gz") else ["utf-16-le"])
         if rng.random() < 0.4:
             enc = rng.choice(encs)
             case["opts"]["encoding"] = enc
@@ -272,7 +274,13 @@ def execute(case):
             if opts.get("header") is False:
                 names = _colnames(len(allk))
                 exp = [{nm: x[k] for nm, k in zip(names, allk)} for x in exp]
-        if not isinstance(back, di.ListOfDicts) or got != exp or [list(g) for g in got] != [list(e) for e in exp]:
+        import re as _re
+        bare_cr = fmt == "lod-csv" and any(isinstance(v, str) and _re.search(r"\r(?!\n)", v) for x in items for v in x.values())
+        if bare_cr: res.cls("lod-csv:bare-carriage-return")
+        if bare_cr and (got != exp):
+            # mechanism key of the recorded finding (known_findings.json): csv.writer with QUOTE_MINIMAL does not quote a bare CR before Python 3.13
+            res.violate("roundtrip:lod-csv:bare-carriage-return", f"{fmt}{suffix} {opts}: read back {canon.short(got, 500)} expected {canon.short(exp, 500)}")
+        elif not isinstance(back, di.ListOfDicts) or got != exp or [list(g) for g in got] != [list(e) for e in exp]:
             res.violate(f"roundtrip:items-differ:{feat}", f"{fmt}{suffix} {opts}: read back {canon.short(got, 700)} expected {canon.short(exp, 700)}")
         res.count("roundtrips")
         return res.dict()
